@@ -74,7 +74,9 @@ func (a *Application) registerTranslatorRoutes() {
 			path := pathProvider.GetAPIPath()
 			handler := a.translationHandler(trans)
 
-			a.routeRegistry.RegisterWithMethod(
+			// The messages route proxies client requests to backends, so it has to go through
+			// the same admission chain (rate limit, body size) as the other proxy routes.
+			a.routeRegistry.RegisterSecuredRoute(
 				path,
 				handler,
 				name+" Messages API",
